@@ -204,30 +204,68 @@ func (rr *DefaultRelationsResolver) SortStates(states S) {
 
 	rr.sortRequire(states)
 
-	// sort by After
+	// sort by After, keeping the Require order: repeatedly take the first state
+	// which does not have to wait for any of the remaining ones (comparing
+	// neighbours only misses constraints between non-adjacent states)
 	// TODO optimize / cache (but not in debug, to have steps)
-	sort.SliceStable(states, func(i, j int) bool {
-		name1 := states[i]
-		name2 := states[j]
-		state1 := m.schema[name1]
-		state2 := m.schema[name2]
-
-		// forward relations
-		if slices.Contains(state1.After, name2) {
-			if t.isLogSteps() {
-				t.addSteps(newStep(name2, name1, StepRelation, RelationAfter))
+	remaining := slices.Clone(states)
+	// waitsFor lists the remaining states which have to come before [name]
+	waitsFor := func(name string) S {
+		var ret S
+		state := m.schema[name]
+		for _, other := range remaining {
+			if other == name {
+				continue
 			}
-			return false
-
-		} else if slices.Contains(state2.After, name1) {
-			if t.isLogSteps() {
-				t.addSteps(newStep(name1, name2, StepRelation, RelationAfter))
+			if slices.Contains(state.After, other) ||
+				slices.Contains(state.Require, other) {
+				ret = append(ret, other)
 			}
-			return true
 		}
-
-		return false
-	})
+		return ret
+	}
+	// reach lists the remaining states [name] waits for, also indirectly
+	reach := func(name string) S {
+		var ret S
+		todo := waitsFor(name)
+		for len(todo) > 0 {
+			next := todo[0]
+			todo = todo[1:]
+			if slices.Contains(ret, next) {
+				continue
+			}
+			ret = append(ret, next)
+			todo = append(todo, waitsFor(next)...)
+		}
+		return ret
+	}
+	for pos := 0; len(remaining) > 0; pos++ {
+		// take the first state which waits for nobody, or only for states which
+		// wait for it as well (a cycle, which has to be broken somewhere)
+		pick := 0
+		for i, name := range remaining {
+			free := true
+			for _, other := range reach(name) {
+				if other != name && !slices.Contains(reach(other), name) {
+					free = false
+					break
+				}
+			}
+			if free {
+				pick = i
+				break
+			}
+		}
+		for _, other := range states[:pos] {
+			if slices.Contains(m.schema[remaining[pick]].After, other) &&
+				t.isLogSteps() {
+				t.addSteps(newStep(remaining[pick], other, StepRelation,
+					RelationAfter))
+			}
+		}
+		states[pos] = remaining[pick]
+		remaining = slices.Delete(remaining, pick, pick+1)
+	}
 }
 
 // sortRequire sorts the states by Require relations.
